@@ -1,4 +1,538 @@
-import AsyncVerif.Proofs.Core
-namespace AsyncVerif
-theorem C01_placeholder_true : True := trivial
-end AsyncVerif
+import AsyncVerif.Proofs.Values
+import AsyncVerif.Proofs.Values2
+import AsyncVerif.Properties.C05
+/-!
+# C01 — iterator tools produce exactly what their stdlib namesakes produce
+
+For every tool two theorems.  `C01_<tool>_value`: in every fault-free world (the source delivers
+`items` and ends, user callables are pure functions, the consumer takes everything) the CPython
+algorithm `Std.<tool>` hands the consumer exactly the list-level specification `ListSpec.<tool>`
+(plain `List` functions, `Std/ListSpec.lean`) and ends normally — in particular never `outOfFuel` —
+or with the library exception the stdlib documents.  `C01_<tool>`: the same for the model
+`Impl.<tool>` of asyncstdlib, through the twin theorem `C05_<tool>` (same visible log, same ending
+in *every* world) where there is one, directly otherwise.
+
+`Produces m w r ys` : run in `w`, `m` ends with `r` and `yields` of its visible log is that of `w`
+followed by `ys`.  Values are compared with `=` on `Val`, i.e. including object identity.
+-/
+namespace AsyncVerif.V1
+
+/-- `filter(fn, items)` (CPython algorithm) yields `items.filter` by the truthiness of `fn(x)`, or of
+    `x` itself for `fn = None`, and ends normally. -/
+theorem C01_filter_value (fn : Option Nat) (q : List Val → Val) (s : Nat) (items : List Val) (fuel : Nat)
+    (w : World) (hc : Exhausting w) (hs : FeedsL w s items) (hq : ∀ f, fn = some f → PureFn w f q)
+    (hf : items.length < fuel) :
+    Produces (Std.filterLoop fn false s fuel) w (.ok ()) (ListSpec.filter fn q items) := by
+  have h := filterLoop_spec fn false s q items fuel w (env_of hc) hq hs.has hf
+  simpa [ListSpec.filter] using produces_of h
+
+/-- asyncstdlib's `filter` yields `items.filter` by the truthiness of `fn(x)` / of `x`, and ends normally. -/
+theorem C01_filter (fn : Option Nat) (q : List Val → Val) (s : Nat) (items : List Val) (fuel : Nat)
+    (w : World) (hc : Exhausting w) (hs : FeedsL w s items) (hq : ∀ f, fn = some f → PureFn w f q)
+    (hf : items.length < fuel) :
+    Produces (Impl.filter fn s fuel) w (.ok ()) (ListSpec.filter fn q items) :=
+  (C05_filter fn s fuel).produces (C01_filter_value fn q s items fuel w hc hs hq hf)
+
+/-- `itertools.filterfalse(fn, items)` yields the items whose test is false, in order. -/
+theorem C01_filterfalse_value (fn : Option Nat) (q : List Val → Val) (s : Nat) (items : List Val) (fuel : Nat)
+    (w : World) (hc : Exhausting w) (hs : FeedsL w s items) (hq : ∀ f, fn = some f → PureFn w f q)
+    (hf : items.length < fuel) :
+    Produces (Std.filterLoop fn true s fuel) w (.ok ()) (ListSpec.filterfalse fn q items) := by
+  have h := filterLoop_spec fn true s q items fuel w (env_of hc) hq hs.has hf
+  have e : (fun x => ListSpec.pred fn q x != true) = (fun x => !ListSpec.pred fn q x) := by
+    funext x; cases ListSpec.pred fn q x <;> rfl
+  rw [e] at h
+  exact produces_of h
+
+/-- asyncstdlib's `filterfalse` yields the items whose test is false, in order. -/
+theorem C01_filterfalse (fn : Option Nat) (q : List Val → Val) (s : Nat) (items : List Val) (fuel : Nat)
+    (w : World) (hc : Exhausting w) (hs : FeedsL w s items) (hq : ∀ f, fn = some f → PureFn w f q)
+    (hf : items.length < fuel) :
+    Produces (Impl.filterfalse fn s fuel) w (.ok ()) (ListSpec.filterfalse fn q items) :=
+  (C05_filterfalse fn s fuel).produces (C01_filterfalse_value fn q s items fuel w hc hs hq hf)
+
+/-- `enumerate(items, start)` yields `(start, x0), (start+1, x1), …` as tuples, one per item. -/
+theorem C01_enumerate_value (s : Nat) (start : Int) (items : List Val) (fuel : Nat) (w : World)
+    (hc : Exhausting w) (hs : FeedsL w s items) (hf : items.length < fuel) :
+    Produces (Std.enumerateLoop s start fuel) w (.ok ()) (ListSpec.enumerate start items) := by
+  have h := enumerateLoop_spec s items start fuel w (env_of hc) hs.has hf
+  rw [enumFrom_spec] at h
+  exact produces_of h
+
+/-- asyncstdlib's `enumerate` yields `(start, x0), (start+1, x1), …`. -/
+theorem C01_enumerate (s : Nat) (start : Int) (items : List Val) (fuel : Nat) (w : World)
+    (hc : Exhausting w) (hs : FeedsL w s items) (hf : items.length < fuel) :
+    Produces (Impl.enumerate s start fuel) w (.ok ()) (ListSpec.enumerate start items) :=
+  (C05_enumerate s start fuel).produces (C01_enumerate_value s start items fuel w hc hs hf)
+
+/-- `itertools.takewhile(f, items)` yields `items.takeWhile` of the truthiness of `f(x)`. -/
+theorem C01_takewhile_value (f : Nat) (q : List Val → Val) (s : Nat) (items : List Val) (fuel : Nat)
+    (w : World) (hc : Exhausting w) (hs : FeedsL w s items) (hq : PureFn w f q) (hf : items.length < fuel) :
+    Produces (Std.takewhileLoop f s fuel) w (.ok ()) (ListSpec.takewhile q items) :=
+  produces_of (takewhileLoop_spec f s q items fuel w (env_of hc) hq hs.has hf)
+
+/-- asyncstdlib's `takewhile` yields `items.takeWhile` of the truthiness of `f(x)`. -/
+theorem C01_takewhile (f : Nat) (q : List Val → Val) (s : Nat) (items : List Val) (fuel : Nat)
+    (w : World) (hc : Exhausting w) (hs : FeedsL w s items) (hq : PureFn w f q) (hf : items.length < fuel) :
+    Produces (Impl.takewhile f s fuel) w (.ok ()) (ListSpec.takewhile q items) :=
+  (C05_takewhile f s fuel).produces (C01_takewhile_value f q s items fuel w hc hs hq hf)
+
+/-- `itertools.starmap(f, items)`, every item being the tuple of a row of `rows`, yields `rows.map f`. -/
+theorem C01_starmap_value (f : Nat) (q : List Val → Val) (s : Nat) (rows : List (List Val)) (fuel : Nat)
+    (w : World) (hc : Exhausting w) (hs : FeedsL w s (rows.map Val.tup)) (hq : PureFn w f q)
+    (hf : rows.length < fuel) :
+    Produces (Std.starmapLoop f s fuel) w (.ok ()) (ListSpec.starmap q rows) :=
+  produces_of (starmapLoop_spec f s q rows fuel w (env_of hc) hq hs.has hf)
+
+/-- asyncstdlib's `starmap` yields `rows.map f`. -/
+theorem C01_starmap (f : Nat) (q : List Val → Val) (s : Nat) (rows : List (List Val)) (fuel : Nat)
+    (w : World) (hc : Exhausting w) (hs : FeedsL w s (rows.map Val.tup)) (hq : PureFn w f q)
+    (hf : rows.length < fuel) :
+    Produces (Impl.starmap f s fuel) w (.ok ()) (ListSpec.starmap q rows) :=
+  (C05_starmap f s fuel).produces (C01_starmap_value f q s rows fuel w hc hs hq hf)
+
+/-- `itertools.accumulate(items, f, initial=…)` with a user function `f`: yields the running fold
+    (`initial` first if given, else the first item first); an empty input without `initial` is
+    `TypeError` with nothing yielded (asyncstdlib's documented deviation, written into the twin). -/
+theorem C01_accumulate_value (f : Nat) (q : List Val → Val) (initial : Option Val) (s : Nat)
+    (items : List Val) (fuel : Nat) (w : World) (hc : Exhausting w) (hs : FeedsL w s items)
+    (hq : PureFn w f q) (hf : items.length < fuel) :
+    Produces (Std.accumulate (some f) initial s fuel) w
+      (ListSpec.accResult (ListSpec.accumulate (fun t x => q [t, x]) initial items))
+      ((ListSpec.accumulate (fun t x => q [t, x]) initial items).getD []) := by
+  have h := accumulate_spec (F := w.fns) (some f) initial s (fun t x => q [t, x]) (fun _ => True) items fuel w
+    (fun t x _ _ => ⟨trivial, fun w he => call_pure [t, x] he hq⟩) (fun _ _ => trivial) (fun _ _ => trivial)
+    (env_of hc) hs.has hf
+  exact produces_of h
+
+/-- asyncstdlib's `accumulate` with a user function: the running fold, `TypeError` on empty input
+    without `initial`. -/
+theorem C01_accumulate (f : Nat) (q : List Val → Val) (initial : Option Val) (s : Nat)
+    (items : List Val) (fuel : Nat) (w : World) (hc : Exhausting w) (hs : FeedsL w s items)
+    (hq : PureFn w f q) (hf : items.length < fuel) :
+    Produces (Impl.accumulate (some f) initial s fuel) w
+      (ListSpec.accResult (ListSpec.accumulate (fun t x => q [t, x]) initial items))
+      ((ListSpec.accumulate (fun t x => q [t, x]) initial items).getD []) :=
+  (C05_accumulate (some f) initial s fuel).produces (C01_accumulate_value f q initial s items fuel w hc hs hq hf)
+
+/-- `itertools.accumulate(items, initial=…)` without a function, on numbers: running sums. -/
+theorem C01_accumulate_add_value (initial : Option Val) (s : Nat)
+    (items : List Val) (fuel : Nat) (w : World) (hc : Exhausting w) (hs : FeedsL w s items)
+    (hnum : ∀ x ∈ items, x.isNum = true) (hini : ∀ v, initial = some v → v.isNum = true)
+    (hf : items.length < fuel) :
+    Produces (Std.accumulate none initial s fuel) w
+      (ListSpec.accResult (ListSpec.accumulate ListSpec.plus initial items))
+      ((ListSpec.accumulate ListSpec.plus initial items).getD []) := by
+  have h := accumulate_spec (F := w.fns) none initial s ListSpec.plus (fun v => v.isNum = true) items fuel w
+    (fun t x ht hx => by
+      have hx := hnum x hx
+      cases t <;> cases x <;> simp [Val.isNum] at ht hx <;>
+        exact ⟨by simp [ListSpec.plus, Val.add, Val.isNum],
+          fun w he => ⟨w, by simp [Std.accStep, liftExc, ListSpec.plus, Val.add], he, rfl, rfl⟩⟩)
+    hini hnum (env_of hc) hs.has hf
+  exact produces_of h
+
+/-- asyncstdlib's `accumulate` without a function, on numbers: running sums. -/
+theorem C01_accumulate_add (initial : Option Val) (s : Nat)
+    (items : List Val) (fuel : Nat) (w : World) (hc : Exhausting w) (hs : FeedsL w s items)
+    (hnum : ∀ x ∈ items, x.isNum = true) (hini : ∀ v, initial = some v → v.isNum = true)
+    (hf : items.length < fuel) :
+    Produces (Impl.accumulate none initial s fuel) w
+      (ListSpec.accResult (ListSpec.accumulate ListSpec.plus initial items))
+      ((ListSpec.accumulate ListSpec.plus initial items).getD []) :=
+  (C05_accumulate none initial s fuel).produces (C01_accumulate_add_value initial s items fuel w hc hs hnum hini hf)
+
+/-- `itertools.pairwise(items)` yields `(x0,x1), (x1,x2), …` = `zip items items.tail` as tuples. -/
+theorem C01_pairwise_value (s : Nat) (items : List Val) (fuel : Nat) (w : World)
+    (hc : Exhausting w) (hs : FeedsL w s items) (hf : items.length < fuel) :
+    Produces (Std.pairwise s fuel) w (.ok ()) (ListSpec.pairwise items) :=
+  produces_of (pairwise_spec s items fuel w (env_of hc) hs.has hf)
+
+/-- asyncstdlib's `pairwise` yields `zip items items.tail` as tuples. -/
+theorem C01_pairwise (s : Nat) (items : List Val) (fuel : Nat) (w : World)
+    (hc : Exhausting w) (hs : FeedsL w s items) (hf : items.length < fuel) :
+    Produces (Impl.pairwise s fuel) w (.ok ()) (ListSpec.pairwise items) :=
+  (C05_pairwise s fuel).produces (C01_pairwise_value s items fuel w hc hs hf)
+
+/-- `itertools.batched(items, n)` (`n ≥ 1`) yields the chunks of `n` as tuples, the last one possibly
+    shorter, and ends normally. -/
+theorem C01_batched_value (n : Nat) (hn : 1 ≤ n) (s : Nat) (items : List Val) (fuel : Nat) (w : World)
+    (hc : Exhausting w) (hs : FeedsL w s items) (hf : items.length < fuel) :
+    Produces (Std.batched n false s fuel) w (.ok ()) (ListSpec.batched n items) := by
+  have h := batchedLoop_spec (F := w.fns) n hn false s items.length items fuel w (env_of hc) hs.has
+    (Nat.le_refl _) hf
+  have hn' : ¬ n < 1 := by omega
+  simpa [Std.batched, hn', ListSpec.batched, ListSpec.chunks] using produces_of h
+
+/-- asyncstdlib's `batched` yields the chunks of `n` as tuples. -/
+theorem C01_batched (n : Nat) (hn : 1 ≤ n) (s : Nat) (items : List Val) (fuel : Nat) (w : World)
+    (hc : Exhausting w) (hs : FeedsL w s items) (hf : items.length < fuel) :
+    Produces (Impl.batched n false s fuel) w (.ok ()) (ListSpec.batched n items) :=
+  (C05_batched n false s fuel).produces (C01_batched_value n hn s items fuel w hc hs hf)
+
+/-- `batched(items, 0)` is `ValueError` before anything is touched, in the stdlib algorithm and in
+    asyncstdlib alike. -/
+theorem C01_batched_zero (strict : Bool) (s fuel : Nat) (w : World) :
+    Produces (Std.batched 0 strict s fuel) w (.error .valueError) []
+    ∧ Produces (Impl.batched 0 strict s fuel) w (.error .valueError) [] := by
+  refine ⟨⟨rfl, ?_⟩, ⟨rfl, ?_⟩⟩ <;> simp [Std.batched, Impl.batched, raise]
+
+/-- the chunks of the specification of `batched` put together again are the input -/
+theorem C01_batched_spec_flatten (n : Nat) (hn : 1 ≤ n) (items : List Val) :
+    (ListSpec.chunks n items).flatten = items :=
+  chunksN_flatten n hn items.length items (Nat.le_refl _)
+
+/-- `batched(items, n, strict=True)` yields the full chunks; it ends normally if every chunk is full
+    (the length is a multiple of `n`) and with `ValueError` after the last full chunk otherwise. -/
+theorem C01_batched_strict_value (n : Nat) (hn : 1 ≤ n) (s : Nat) (items : List Val) (fuel : Nat) (w : World)
+    (hc : Exhausting w) (hs : FeedsL w s items) (hf : items.length < fuel) :
+    Produces (Std.batched n true s fuel) w
+      (if (ListSpec.chunks n items).all (fun c => c.length == n) then .ok () else .error .valueError)
+      (ListSpec.batchedStrict n items) := by
+  have h := batchedLoop_spec (F := w.fns) n hn true s items.length items fuel w (env_of hc) hs.has
+    (Nat.le_refl _) hf
+  have hn' : ¬ n < 1 := by omega
+  have hp := produces_of h
+  rw [show ListSpec.chunksN n items.length items = ListSpec.chunks n items from rfl] at hp
+  unfold Std.batched ListSpec.batchedStrict
+  rw [if_neg hn']
+  by_cases hall : ((ListSpec.chunks n items).all (fun c => c.length == n)) = true
+  · simpa [hall] using hp
+  · simpa [hall] using hp
+
+/-- asyncstdlib's `batched(strict=True)`: the full chunks, then `ValueError` iff there is a short tail. -/
+theorem C01_batched_strict (n : Nat) (hn : 1 ≤ n) (s : Nat) (items : List Val) (fuel : Nat) (w : World)
+    (hc : Exhausting w) (hs : FeedsL w s items) (hf : items.length < fuel) :
+    Produces (Impl.batched n true s fuel) w
+      (if (ListSpec.chunks n items).all (fun c => c.length == n) then .ok () else .error .valueError)
+      (ListSpec.batchedStrict n items) :=
+  (C05_batched n true s fuel).produces (C01_batched_strict_value n hn s items fuel w hc hs hf)
+
+/-- `zip(*sources)` for any number of distinct sources `srcs`, source `s` delivering `I s` (lengths may
+    differ): yields the rows of the transposition up to the shortest input, as tuples. -/
+theorem C01_zip_value (srcs : List Nat) (I : Nat → List Val) (fuel : Nat) (w : World)
+    (hc : Exhausting w) (hnd : srcs.Nodup) (hs : ∀ s ∈ srcs, FeedsL w s (I s))
+    (hf : ListSpec.minLen (srcs.map I) < fuel) :
+    Produces (Std.zip srcs fuel) w (.ok ()) (ListSpec.zip (srcs.map I)) := by
+  cases hsrc : srcs with
+  | nil => exact ⟨rfl, by simp [Std.zip, pure_apply, ListSpec.zip, ListSpec.zipRows, ListSpec.minLen, ListSpec.rowsN]⟩
+  | cons s0 rest =>
+    rw [← hsrc]
+    have hne : srcs ≠ [] := by simp [hsrc]
+    have h := zipLoop_min (F := w.fns) srcs hnd hne (fun row => yieldV (.tup row)) Val.tup
+      (fun row w he => yieldV_ok (.tup row) he) I fuel w (env_of hc) (fun s h => (hs s h).has) hf
+    have hp := produces_of h
+    simpa [Std.zip, hne, ListSpec.zip] using hp
+
+/-- asyncstdlib's `zip`: the rows up to the shortest input, as tuples. -/
+theorem C01_zip (srcs : List Nat) (I : Nat → List Val) (fuel : Nat) (w : World)
+    (hc : Exhausting w) (hnd : srcs.Nodup) (hs : ∀ s ∈ srcs, FeedsL w s (I s))
+    (hf : ListSpec.minLen (srcs.map I) < fuel) :
+    Produces (Impl.zip srcs fuel) w (.ok ()) (ListSpec.zip (srcs.map I)) :=
+  (C05_zip srcs fuel).produces (C01_zip_value srcs I fuel w hc hnd hs hf)
+
+/-- the specification of `zip` for two inputs is core `List.zip` -/
+theorem C01_zip_spec_two (a b : List Val) :
+    ListSpec.zip [a, b] = (a.zip b).map (fun p => Val.tup [p.1, p.2]) := by
+  simp [ListSpec.zip, zipRows_pair, List.map_map, Function.comp_def]
+
+/-- `map(f, *sources)`: `f` applied to the rows up to the shortest input. -/
+theorem C01_map_value (f : Nat) (q : List Val → Val) (srcs : List Nat) (I : Nat → List Val) (fuel : Nat)
+    (w : World) (hc : Exhausting w) (hnd : srcs.Nodup) (hs : ∀ s ∈ srcs, FeedsL w s (I s))
+    (hq : PureFn w f q) (hf : ListSpec.minLen (srcs.map I) < fuel) :
+    Produces (Std.map f srcs fuel) w (.ok ()) (ListSpec.map q (srcs.map I)) := by
+  cases hsrc : srcs with
+  | nil => exact ⟨rfl, by simp [Std.map, pure_apply, ListSpec.map, ListSpec.zipRows, ListSpec.minLen, ListSpec.rowsN]⟩
+  | cons s0 rest =>
+    rw [← hsrc]
+    have hne : srcs ≠ [] := by simp [hsrc]
+    have h := zipLoop_min (F := w.fns) srcs hnd hne (fun row => do yieldV (← call f row)) q
+      (fun row w he => by
+        obtain ⟨w1, hcl, he1, hs1, hy1⟩ := call_pure row he hq
+        obtain ⟨w2, hyv, he2, hs2, hy2⟩ := yieldV_ok (q row) he1
+        exact ⟨w2, by simp [bind_apply, hcl, hyv], he2, by rw [hs2, hs1], by rw [hy2, hy1]⟩)
+      I fuel w (env_of hc) (fun s h => (hs s h).has) hf
+    have hp := produces_of h
+    simpa [Std.map, hne, ListSpec.map] using hp
+
+/-- asyncstdlib's `map`: `f` applied to the rows up to the shortest input. -/
+theorem C01_map (f : Nat) (q : List Val → Val) (srcs : List Nat) (I : Nat → List Val) (fuel : Nat)
+    (w : World) (hc : Exhausting w) (hnd : srcs.Nodup) (hs : ∀ s ∈ srcs, FeedsL w s (I s))
+    (hq : PureFn w f q) (hf : ListSpec.minLen (srcs.map I) < fuel) :
+    Produces (Impl.map f srcs fuel) w (.ok ()) (ListSpec.map q (srcs.map I)) :=
+  (C05_map f srcs fuel).produces (C01_map_value f q srcs I fuel w hc hnd hs hq hf)
+
+/-- `zip(*sources, strict=True)`: the rows up to the shortest input; ends normally iff all inputs have
+    the same length, with `ValueError` (after the last complete row) otherwise. -/
+theorem C01_zip_strict_value (srcs : List Nat) (I : Nat → List Val) (fuel : Nat) (w : World)
+    (hc : Exhausting w) (hnd : srcs.Nodup) (hs : ∀ s ∈ srcs, FeedsL w s (I s))
+    (hf : ListSpec.minLen (srcs.map I) < fuel) :
+    Produces (Std.zipStrict srcs fuel) w
+      (if ListSpec.sameLen (srcs.map I) then .ok () else .error .valueError)
+      (ListSpec.zip (srcs.map I)) := by
+  cases hsrc : srcs with
+  | nil =>
+    exact ⟨rfl, by simp [Std.zipStrict, pure_apply, ListSpec.zip, ListSpec.zipRows, ListSpec.minLen, ListSpec.rowsN]⟩
+  | cons s0 rest =>
+    rw [← hsrc]
+    have hne : srcs ≠ [] := by simp [hsrc]
+    obtain ⟨h1, l, hl, h2⟩ := minLen_spec (ls := srcs.map I) (by simpa using hne)
+    obtain ⟨s, hsm, rfl⟩ := List.mem_map.mp hl
+    have h := zipStrictLoop_spec (F := w.fns) srcs hnd _ I fuel w (env_of hc) (fun s h => (hs s h).has)
+      (fun t ht => h1 _ (List.mem_map.mpr ⟨t, ht, rfl⟩)) ⟨s, hsm, h2⟩ hf
+    have hp := produces_of h
+    have hall : ListSpec.sameLen (srcs.map I)
+        = srcs.all (fun s => (I s).length == ListSpec.minLen (srcs.map I)) := by
+      simp [ListSpec.sameLen, List.all_map, Function.comp_def]
+    rw [hall]
+    simpa [Std.zipStrict, hne, ListSpec.zip, ListSpec.zipRows] using hp
+
+/-- asyncstdlib's `zip(strict=True)`: rows up to the shortest input, `ValueError` iff lengths differ. -/
+theorem C01_zip_strict (srcs : List Nat) (I : Nat → List Val) (fuel : Nat) (w : World)
+    (hc : Exhausting w) (hnd : srcs.Nodup) (hs : ∀ s ∈ srcs, FeedsL w s (I s))
+    (hf : ListSpec.minLen (srcs.map I) < fuel) :
+    Produces (Impl.zipStrict srcs fuel) w
+      (if ListSpec.sameLen (srcs.map I) then .ok () else .error .valueError)
+      (ListSpec.zip (srcs.map I)) :=
+  (C05_zip_strict srcs fuel).produces (C01_zip_strict_value srcs I fuel w hc hnd hs hf)
+
+/-- `itertools.chain(*sources)` for distinct sources: the concatenation of the inputs. -/
+theorem C01_chain_value (srcs : List Nat) (I : Nat → List Val) (fuel : Nat) (w : World)
+    (hc : Exhausting w) (hnd : srcs.Nodup) (hs : ∀ s ∈ srcs, FeedsL w s (I s))
+    (hf : ∀ s ∈ srcs, (I s).length < fuel) :
+    Produces (Std.chain srcs fuel) w (.ok ()) (ListSpec.chain (srcs.map I)) :=
+  produces_of (chain_spec I fuel srcs w (env_of hc) hnd (fun s h => (hs s h).has) hf)
+
+/-- asyncstdlib's `chain` (every input in its own scope, proved on the model directly — there is no
+    twin theorem for `chain`): the concatenation of the inputs. -/
+theorem C01_chain (srcs : List Nat) (I : Nat → List Val) (fuel : Nat) (w : World)
+    (hc : Exhausting w) (hnd : srcs.Nodup) (hs : ∀ s ∈ srcs, FeedsL w s (I s))
+    (hf : ∀ s ∈ srcs, (I s).length < fuel) :
+    Produces (Impl.chain srcs fuel) w (.ok ()) (ListSpec.chain (srcs.map I)) :=
+  produces_of (implChain_spec I fuel srcs w (env_of hc) hnd (fun s h => (hs s h).has) hf)
+
+/-- `itertools.dropwhile(f, items)` (CPython's one loop with the `start` flag) yields
+    `items.dropWhile` of the truthiness of `f(x)`. -/
+theorem C01_dropwhile_value (f : Nat) (q : List Val → Val) (s : Nat) (items : List Val) (fuel : Nat)
+    (w : World) (hc : Exhausting w) (hs : FeedsL w s items) (hq : PureFn w f q) (hf : items.length < fuel) :
+    Produces (Std.dropwhileLoop f s false fuel) w (.ok ()) (ListSpec.dropwhile q items) :=
+  produces_of (dropwhileLoop_spec f s q hq items fuel w (env_of hc) hs.has hf)
+
+/-- asyncstdlib's `dropwhile` (two loops over one iterator; twin `C05_dropwhile`) yields
+    `items.dropWhile` of the truthiness of `f(x)`. -/
+theorem C01_dropwhile (f : Nat) (q : List Val → Val) (s : Nat) (items : List Val) (fuel : Nat)
+    (w : World) (hc : Exhausting w) (hs : FeedsL w s items) (hq : PureFn w f q) (hf : items.length < fuel) :
+    Produces (Impl.dropwhile f s fuel) w (.ok ()) (ListSpec.dropwhile q items) :=
+  (C05_dropwhile f s fuel).produces (C01_dropwhile_value f q s items fuel w hc hs hq hf)
+
+/-- `itertools.islice(items, start, stop, step)` (CPython's `cnt/next` state machine), `step ≥ 1`,
+    `stop` possibly `None`, including `stop ≤ start`: yields the Python slice `items[start:stop:step]`. -/
+theorem C01_islice_value (s start : Nat) (stop : Option Nat) (step : Nat) (hstep : 1 ≤ step)
+    (items : List Val) (fuel : Nat) (w : World) (hc : Exhausting w) (hs : FeedsL w s items)
+    (hf : items.length < fuel) :
+    Produces (Std.islice s start stop step fuel) w (.ok ()) (ListSpec.islice start stop step items) :=
+  produces_of (islice_spec s start stop step hstep items fuel w (env_of hc) hs.has hf)
+
+/-- asyncstdlib's `islice` (skip `start` items, then an indexed loop with a limit; proved on the model
+    directly): yields the Python slice `items[start:stop:step]`. -/
+theorem C01_islice (s start : Nat) (stop : Option Nat) (step : Nat)
+    (items : List Val) (fuel : Nat) (w : World) (hc : Exhausting w) (hs : FeedsL w s items)
+    (hf : items.length < fuel) :
+    Produces (Impl.islice s start stop step fuel) w (.ok ()) (ListSpec.islice start stop step items) :=
+  produces_of (implIslice_spec s start stop step items fuel w (env_of hc) hs.has hf)
+
+/-- `itertools.zip_longest(*sources, fillvalue=fillv)` for distinct sources: the rows of the
+    transposition up to the longest input, ended inputs padded with the fill value, as tuples. -/
+theorem C01_zip_longest_value (fillv : Val) (srcs : List Nat) (I : Nat → List Val) (fuel : Nat) (w : World)
+    (hc : Exhausting w) (hnd : srcs.Nodup) (hs : ∀ s ∈ srcs, FeedsL w s (I s))
+    (hf : ListSpec.maxLen (srcs.map I) < fuel) :
+    Produces (Std.zipLongest fillv srcs fuel) w (.ok ()) (ListSpec.zipLongest fillv (srcs.map I)) :=
+  produces_of (zipLongest_spec fillv srcs hnd I fuel w (env_of hc) (fun s h => (hs s h).has) hf)
+
+/-- asyncstdlib's `zip_longest`: rows up to the longest input, padded with the fill value. -/
+theorem C01_zip_longest (fillv : Val) (srcs : List Nat) (I : Nat → List Val) (fuel : Nat) (w : World)
+    (hc : Exhausting w) (hnd : srcs.Nodup) (hs : ∀ s ∈ srcs, FeedsL w s (I s))
+    (hf : ListSpec.maxLen (srcs.map I) < fuel) :
+    Produces (Impl.zipLongest fillv srcs fuel) w (.ok ()) (ListSpec.zipLongest fillv (srcs.map I)) :=
+  (C05_zip_longest fillv srcs fuel).produces (C01_zip_longest_value fillv srcs I fuel w hc hnd hs hf)
+
+/-- `itertools.cycle(items)` with a consumer that takes `k + 1` items and then closes the generator
+    (`cons = .run k .close`: resumed `k` times, closed at the next yield): it has received the first
+    `k + 1` elements of `items` repeated for ever, and the run ends with the consumer's `GeneratorExit`
+    (never `outOfFuel`); for no items the generator just ends.  (With an exhausting consumer `cycle`
+    diverges, as documented.) -/
+theorem C01_cycle_value (s : Nat) (items : List Val) (k fuel : Nat) (w : World)
+    (hs : FeedsL w s items) (hc : w.cons = .run k .close) (hf : items.length + 2 * k + 2 ≤ fuel) :
+    Produces (Std.cycle s fuel) w (if items.isEmpty then .ok () else .error .genExit)
+      (ListSpec.cyclePrefix items (k + 1)) :=
+  cycle_spec s items k fuel w hs.has hc hf
+
+/-- the specification of `cycle` read by index: element `i` of the first `m` is `items[i mod len]` -/
+theorem C01_cycle_spec_index (items : List Val) (hne : items ≠ []) (m i : Nat) (hi : i < m) :
+    (ListSpec.cyclePrefix items m)[i]? = items[i % items.length]? := by
+  have := cycleTake_getElem? items hne m [] i hi
+  simpa [ListSpec.cyclePrefix] using this
+
+/-- asyncstdlib's `cycle` (first pass inside a scope, then replay; proved on the model directly): a
+    consumer closing after `k + 1` items has received the first `k + 1` elements of the repeated list. -/
+theorem C01_cycle (s : Nat) (items : List Val) (k fuel : Nat) (w : World)
+    (hs : FeedsL w s items) (hc : w.cons = .run k .close) (hf : items.length + 2 * k + 2 ≤ fuel) :
+    Produces (Impl.cycle s fuel) w (if items.isEmpty then .ok () else .error .genExit)
+      (ListSpec.cyclePrefix items (k + 1)) :=
+  implCycle_spec s items k fuel w hs.has hc hf
+
+/-- `heapq.merge(*sources, key=fn, reverse=reverse)` for distinct sources whose items all have an
+    orderable key (objects / numbers): yields the greedy k-way merge of the inputs — at every step
+    the smallest head (largest for `reverse`), equal keys to the lower input position. -/
+theorem C01_merge_value (fn : Option Nat) (q : List Val → Val) (reverse : Bool) (srcs : List Nat)
+    (I : Nat → List Val) (fuel : Nat) (w : World)
+    (hc : Exhausting w) (hnd : srcs.Nodup) (hs : ∀ s ∈ srcs, FeedsL w s (I s))
+    (hq : ∀ f, fn = some f → PureFn w f q)
+    (hk : ∀ s ∈ srcs, ∀ x ∈ I s, (ListSpec.keyFn fn q x).key?.isSome = true)
+    (hf : ((srcs.map I).map List.length).sum < fuel) :
+    Produces (Std.merge fn reverse srcs fuel) w (.ok ())
+      (ListSpec.merge (ListSpec.keyFn fn q) reverse (srcs.map I)) :=
+  produces_of (merge_spec fn q reverse srcs hnd hq I fuel w (env_of hc) (fun s h => (hs s h).has) hk hf)
+
+/-- asyncstdlib's `merge` is a twin of the stdlib algorithm (it only adds the closing of the inputs). -/
+theorem C01_merge_twin (fn : Option Nat) (reverse : Bool) (srcs : List Nat) (fuel : Nat) :
+    Twin (Impl.merge fn reverse srcs fuel) (Std.merge fn reverse srcs fuel) :=
+  tryFinally_twin _ _ (closeAll_quiet srcs)
+
+/-- asyncstdlib's `merge` yields the greedy stable k-way merge of the inputs. -/
+theorem C01_merge (fn : Option Nat) (q : List Val → Val) (reverse : Bool) (srcs : List Nat)
+    (I : Nat → List Val) (fuel : Nat) (w : World)
+    (hc : Exhausting w) (hnd : srcs.Nodup) (hs : ∀ s ∈ srcs, FeedsL w s (I s))
+    (hq : ∀ f, fn = some f → PureFn w f q)
+    (hk : ∀ s ∈ srcs, ∀ x ∈ I s, (ListSpec.keyFn fn q x).key?.isSome = true)
+    (hf : ((srcs.map I).map List.length).sum < fuel) :
+    Produces (Impl.merge fn reverse srcs fuel) w (.ok ())
+      (ListSpec.merge (ListSpec.keyFn fn q) reverse (srcs.map I)) :=
+  (C01_merge_twin fn reverse srcs fuel).produces (C01_merge_value fn q reverse srcs I fuel w hc hnd hs hq hk hf)
+
+/-- On inputs that are each sorted by key, the greedy merge (`reverse = False`) is a *stable merge*: a
+    permutation of the concatenation of the inputs, sorted by key, and for every key value the items
+    with that key appear exactly in the order they have in the concatenation (by input, then by
+    position) — the very same objects, since `Val` equality includes identity. -/
+theorem C01_merge_sorted_stable (kf : Val → Val) (ls : List (List Val))
+    (hk : ∀ l ∈ ls, ∀ x ∈ l, (kf x).key?.isSome = true)
+    (hsorted : ∀ l ∈ ls, l.Pairwise (fun a b => Std.keyLe (kf a) (kf b) = true)) :
+    (ListSpec.merge kf false ls).Perm ls.flatten
+    ∧ (ListSpec.merge kf false ls).Pairwise (fun a b => Std.keyLe (kf a) (kf b) = true)
+    ∧ ∀ k : Int, (ListSpec.merge kf false ls).filter (fun x => (kf x).key? == some k)
+        = ls.flatten.filter (fun x => (kf x).key? == some k) := by
+  have hle : ∀ a b, (kf a).key?.isSome = true → (kf b).key?.isSome = true →
+      (Std.keyLe (kf a) (kf b) = true ↔ rk false (kf a) ≤ rk false (kf b)) := by
+    intro a b ha hb
+    cases hka : (kf a).key? with
+    | none => rw [hka] at ha; simp at ha
+    | some x =>
+      cases hkb : (kf b).key? with
+      | none => rw [hkb] at hb; simp at hb
+      | some y => simp [Std.keyLe, rk, hka, hkb]
+  have heq : ∀ (k : Int) a, (kf a).key?.isSome = true →
+      ((kf a).key? == some k) = (rk false (kf a) == k) := by
+    intro k a ha
+    cases hka : (kf a).key? with
+    | none => rw [hka] at ha; simp at ha
+    | some x => simp [rk, hka]
+  have hs' : ∀ l ∈ ls, l.Pairwise (fun a b => rk false (kf a) ≤ rk false (kf b)) := by
+    intro l hl
+    exact (hsorted l hl).imp_of_mem (fun ha hb h => (hle _ _ (hk l hl _ ha) (hk l hl _ hb)).mp h)
+  have hperm := mergeN_perm kf _ ls hk (Nat.le_refl _)
+  have hkey_flat : ∀ x ∈ ls.flatten, (kf x).key?.isSome = true := by
+    intro x hx
+    obtain ⟨l, hl, hxl⟩ := List.mem_flatten.mp hx
+    exact hk l hl x hxl
+  have hkey_out : ∀ x ∈ ListSpec.merge kf false ls, (kf x).key?.isSome = true :=
+    fun x hx => hkey_flat x (hperm.mem_iff.mp hx)
+  refine ⟨hperm, ?_, ?_⟩
+  · exact (mergeN_sorted kf _ ls hk hs' (Nat.le_refl _)).imp_of_mem
+      (fun ha hb h => (hle _ _ (hkey_out _ ha) (hkey_out _ hb)).mpr h)
+  · intro k
+    have := mergeN_stable kf k _ ls hk hs' (Nat.le_refl _)
+    rw [List.filter_congr (fun x hx => heq k x (hkey_out x hx)),
+      List.filter_congr (fun x hx => heq k x (hkey_flat x hx))]
+    exact this
+
+/-! ## The hypotheses are satisfiable, and the theorems say what they should, on concrete worlds
+
+Items with ties: `a1` and `a2` are different objects with the same key. -/
+
+section Examples
+
+private def a1 : Val := .obj 1 5
+private def a2 : Val := .obj 2 5
+private def b0 : Val := .obj 3 0
+private def c7 : Val := .obj 4 7
+
+/-- source 0 delivers `a1, b0, a2, c7`, source 1 delivers `b0, a2`, source 2 nothing; callable 0
+    returns its first argument, callable 1 the tuple of its arguments -/
+private def exWorld : World where
+  srcs := fun s =>
+    if s = 0 then { kind := .agen, script := [.item a1, .item b0, .item a2, .item c7] }
+    else if s = 1 then { kind := .list, script := [.item b0, .item a2] }
+    else { kind := .aobj, script := [] }
+  fns := fun f _ args => if f = 0 then .ok (args.headD .none) else .ok (.tup args)
+  calls := fun _ => 0
+  cons := .run 0 .exhaust
+  vis := []
+  rel := []
+
+private def exItems (s : Nat) : List Val :=
+  if s = 0 then [a1, b0, a2, c7] else if s = 1 then [b0, a2] else []
+
+example : Exhausting exWorld := rfl
+example : FeedsL exWorld 0 [a1, b0, a2, c7] := ⟨rfl, rfl⟩
+example : ∀ s ∈ [0, 1, 2], FeedsL exWorld s (exItems s) := by
+  intro s hs
+  simp only [List.mem_cons, List.not_mem_nil, or_false] at hs
+  rcases hs with rfl | rfl | rfl <;> exact ⟨rfl, rfl⟩
+example : PureFn exWorld 0 (fun args => args.headD .none) := fun _ _ => rfl
+example : PureFn exWorld 1 Val.tup := fun _ _ => rfl
+example : [0, 1, 2].Nodup := by decide
+example : ([a1, b0, a2, c7] : List Val).length < 10 := by decide
+
+/-- `filter` with the identity as predicate keeps the truthy items (key ≠ 0), the very same objects -/
+example : yields (Impl.filter (some 0) 0 10 exWorld).2.vis = [a1, a2, c7] := by rfl
+example : ListSpec.filter (some 0) (fun args => args.headD .none) [a1, b0, a2, c7] = [a1, a2, c7] := by rfl
+example : Produces (Impl.filter (some 0) 0 10) exWorld (.ok ()) [a1, a2, c7] :=
+  C01_filter (some 0) (fun args => args.headD .none) 0 [a1, b0, a2, c7] 10 exWorld rfl ⟨rfl, rfl⟩
+    (fun f hf => by cases hf; exact fun _ _ => rfl) (by decide)
+
+example : ListSpec.enumerate 3 [a1, b0] = [.tup [.int 3, a1], .tup [.int 4, b0]] := by rfl
+example : ListSpec.pairwise [a1, b0, a2] = [.tup [a1, b0], .tup [b0, a2]] := by rfl
+example : ListSpec.batched 3 [a1, b0, a2, c7] = [.tup [a1, b0, a2], .tup [c7]] := by rfl
+example : ListSpec.batchedStrict 3 [a1, b0, a2, c7] = [.tup [a1, b0, a2]] := by rfl
+example : ListSpec.zip [[a1, b0, a2, c7], [b0, a2]] = [.tup [a1, b0], .tup [b0, a2]] := by rfl
+example : ListSpec.sameLen [[a1, b0, a2, c7], [b0, a2]] = false := by rfl
+example : ListSpec.zipLongest .fill [[a1, b0, a2], [b0], []]
+    = [.tup [a1, b0, .fill], .tup [b0, .fill, .fill], .tup [a2, .fill, .fill]] := by rfl
+example : ListSpec.islice 1 (some 6) 2 [a1, b0, a2, c7, a1, b0, a2] = [b0, c7, b0] := by rfl
+example : ListSpec.islice 2 none 3 [a1, b0, a2, c7, a1, b0, a2] = [a2, b0] := by rfl
+example : ListSpec.islice 3 (some 2) 1 [a1, b0, a2, c7] = [] := by rfl
+example : ListSpec.cyclePrefix [a1, b0, a2] 7 = [a1, b0, a2, a1, b0, a2, a1] := by rfl
+example : ListSpec.accumulate ListSpec.plus none [.int 1, .int 2, .int 3] = some [.int 1, .int 3, .int 6] := by rfl
+
+/-- ties in `merge` go to the lower input: `a1` (input 0) before `a2` (input 1), either direction -/
+example : ListSpec.merge id false [[b0, a1, c7], [a2], [b0]] = [b0, b0, a1, a2, c7] := by rfl
+example : ListSpec.merge id true [[c7, a1, b0], [a2], [b0]] = [c7, a1, a2, b0, b0] := by rfl
+
+example : yields (Impl.zip [0, 1, 2] 10 exWorld).2.vis = [] := by rfl
+example : yields (Impl.zip [0, 1] 10 exWorld).2.vis = [.tup [a1, b0], .tup [b0, a2]] := by rfl
+example : Produces (Impl.zip [0, 1] 10) exWorld (.ok ()) [.tup [a1, b0], .tup [b0, a2]] :=
+  C01_zip [0, 1] exItems 10 exWorld rfl (by decide)
+    (by intro s hs
+        simp only [List.mem_cons, List.not_mem_nil, or_false] at hs
+        rcases hs with rfl | rfl <;> exact ⟨rfl, rfl⟩)
+    (by decide)
+example : (Impl.zipStrict [0, 1] 10 exWorld).1 = .error .valueError := by rfl
+
+/-- a closing consumer for `cycle`: takes 5 items of source 1 (`b0, a2`), then closes -/
+example : yields (Impl.cycle 1 20 { exWorld with cons := .run 4 .close }).2.vis = [b0, a2, b0, a2, b0] := by rfl
+example : Produces (Impl.cycle 1 20) { exWorld with cons := .run 4 .close } (.error .genExit) [b0, a2, b0, a2, b0] :=
+  C01_cycle 1 [b0, a2] 4 20 _ ⟨rfl, rfl⟩ rfl (by decide)
+
+end Examples
+
+end AsyncVerif.V1
